@@ -195,3 +195,69 @@ def signals_L(L, values, t0=0.0, max_interior=None, step=0.5):
             for vals in itertools.product(values, repeat=len(ts)):
                 out.append(tuple(zip(ts, vals)))
     return out
+
+
+def _bcells(f, w, N, scale):
+    """Boolean dense-time satisfaction per cell, written independently of _cells (closed intervals, non-strict since/until)"""
+    op = f[0]
+    S = lambda g: _bcells(g, w, N, scale)
+    R = range(N)
+
+    def ib(I):
+        return int(Fraction(I[0]) * scale), int(Fraction(I[1]) * scale)
+    if op == 'pred':
+        l = _cells(f[2], w, N, scale); r = _cells(f[3], w, N, scale); c = f[1]
+        cmpf = {'>=': lambda a, b: a >= b, '>': lambda a, b: a > b, '<=': lambda a, b: a <= b, '<': lambda a, b: a < b,
+                '==': lambda a, b: a == b, '!==': lambda a, b: a != b}[c]
+        return [cmpf(a, b) for a, b in zip(l, r)]
+    if op == 'var':
+        return [a >= 0 for a in w[f[1]]]
+    if op == 'not':
+        return [not a for a in S(f[1])]
+    if op == 'and':
+        return [a and b for a, b in zip(S(f[1]), S(f[2]))]
+    if op == 'or':
+        return [a or b for a, b in zip(S(f[1]), S(f[2]))]
+    if op == 'implies':
+        return [(not a) or b for a, b in zip(S(f[1]), S(f[2]))]
+    if op in ('once', 'historically', 'eventually', 'always'):
+        c = S(f[2]); ex = op in ('once', 'eventually'); past = op in ('once', 'historically')
+        out = []
+        for k in R:
+            if f[1] is None:
+                idx = range(0, k + 1) if past else range(k, N)
+            else:
+                a, b = ib(f[1])
+                idx = range(max(0, k - b), k - a + 1) if past else range(min(k + a, N - 1), min(k + b, N - 1) + 1)
+            vals = [c[j] for j in idx]
+            out.append(any(vals) if ex else all(vals))
+        return out
+    if op == 'since':
+        p = S(f[2]); q = S(f[3]); out = []
+        for k in R:
+            idx = range(0, k + 1) if f[1] is None else range(max(0, k - ib(f[1])[1]), k - ib(f[1])[0] + 1)
+            out.append(any(q[j] and all(p[j:k + 1]) for j in idx))
+        return out
+    if op == 'until':
+        p = S(f[2]); q = S(f[3]); out = []
+        for k in R:
+            idx = range(k, N) if f[1] is None else range(min(k + ib(f[1])[0], N - 1), min(k + ib(f[1])[1], N - 1) + 1)
+            out.append(any(q[j] and all(p[k:j + 1]) for j in idx))
+        return out
+    if op == 'unless':
+        I = f[1]
+        al = ('always', None if I is None else (0, I[1]), f[2])
+        return [a or b for a, b in zip(S(al), S(('until', I, f[2], f[3])))]
+    raise ValueError(op)
+
+
+def sat_at(f, signals, times, delta=Fraction(1, 2)):
+    t0 = min(s[0][0] for s in signals.values())
+    tend = max(s[-1][0] for s in signals.values())
+    d = Fraction(delta)
+    scale = 1 / d
+    span = Fraction(tend - t0) + Fraction(total_bounds(f)) + 1
+    N = int(span * scale) + 2
+    w = {v: [stepval(s, t0 + float(k * d)) for k in range(N)] for v, s in signals.items()}
+    cells = _bcells(f, w, N, scale)
+    return [cells[int(math.floor(Fraction(t - t0) * scale))] for t in times]
